@@ -12,7 +12,7 @@ from ..rtc import par
 
 LEVEL = "exploration"
 KNOWN = os.path.join(common.ROOT, "known", "C05_failing.json.gz")
-KINDS = {"c": "cat", "e": "cat", "x": "num", "z": "num", "g": "cat", "k": "cat", "h": "cat"}
+KINDS = {"c": "cat", "e": "cat", "x": "num", "z": "num", "g": "cat", "k": "cat", "h": "cat", "n": "num"}
 
 # effect expressions: (text, list of effect terms as tuples, intercept present)
 EFFECTS = [
@@ -32,6 +32,8 @@ GROUPS = [("g", [("g",)]), ("g + h", [("g",), ("h",)]), ("g:h", [("g", "h")]), (
 EXTRA = [  # combinations of several group terms
     "(0 + c|g) + (1|g)", "(1|g) + (0 + c|g)", "(0 + c|g) + (x|g)", "(1|g) + (0 + c|g + h)", "(1|h) + (0 + c|g + h)",
     "(0 + c|g + h) + (x|h)", "(x|g) + (0 + z|g)", "(1|g) + (0 + x|g) + (0 + c|g)", "(c|g) + (e|h)", "(0 + x|g) + (1|h)",
+    # one numeric column as grouping factor of one term and as numeric effect of another
+    "(1|n) + (0 + n|g)", "(0 + n|g) + (1|n)", "(x|n) + (n|g)", "(n|g) + (1|n:h)",
 ]
 EXTRA_SPEC = {
     "(0 + c|g) + (1|g)": {("g",): ([("c",)], True)}, "(1|g) + (0 + c|g)": {("g",): ([("c",)], True)},
@@ -43,6 +45,8 @@ EXTRA_SPEC = {
     "(1|g) + (0 + x|g) + (0 + c|g)": {("g",): ([("x",), ("c",)], True)},
     "(c|g) + (e|h)": {("g",): ([("c",)], True), ("h",): ([("e",)], True)},
     "(0 + x|g) + (1|h)": {("g",): ([("x",)], False), ("h",): ([], True)},
+    "(1|n) + (0 + n|g)": {("n",): ([], True), ("g",): ([("n",)], False)}, "(0 + n|g) + (1|n)": {("n",): ([], True), ("g",): ([("n",)], False)},
+    "(x|n) + (n|g)": {("n",): ([("x",)], True), ("g",): ([("n",)], True)}, "(n|g) + (1|n:h)": {("n", "h"): ([], True), ("g",): ([("n",)], True)},
 }
 
 
@@ -52,6 +56,7 @@ def frame(seed):
     d = factorial_frame(rng, {"g": ["u", "v", "w"], "h": ["p", "q"], "c": ["a", "b", "cc"], "e": ["m", "n"]}, reps=2,
                         numerics=("x", "z"))
     d["k"] = d["g"].map({"u": 10, "v": 5, "w": 100})
+    d["n"] = d["c"].map({"a": 3, "b": 11, "cc": 7})      # numeric codes, crossed with g and h
     return d
 
 
@@ -109,7 +114,7 @@ def evaluate(formula, spec, d):
         en = name.split("|")[0]
         if en == "1" and not np.allclose(X, 1):
             return f"block-values: intercept effect of {name} is not 1 on the rows of its group"
-        if en in ("x", "z") and not np.allclose(X[:, 0], d[en].values):
+        if en in ("x", "z", "n") and not np.allclose(X[:, 0], d[en].values):
             return f"block-values: effect column of {name} does not carry {en}"
         per_factor.setdefault(fac_cols, []).append(Z)
     for fac, blocks in per_factor.items():
@@ -164,8 +169,9 @@ def make_known():
 
 
 def PROOFS():
-    from ..contracts import utils_c, terms_c, variable_c  # noqa: F401
-    return [("vf.contracts.utils_c", utils_c.FUNCTIONS), ("vf.contracts.terms_c", ["formulae.terms.terms.GroupSpecificTerm.eval_new_data"]),
+    from ..contracts import utils_c, terms_c, variable_c, matrices_c  # noqa: F401
+    return [("vf.contracts.utils_c", utils_c.FUNCTIONS),
+            ("vf.contracts.matrices_c", ["formulae.matrices.GroupEffectsMatrix.__init__", "formulae.matrices.GroupEffectsMatrix.evaluate"]), ("vf.contracts.terms_c", ["formulae.terms.terms.GroupSpecificTerm.eval_new_data"]),
             # the coding of a grouping factor: sorted duplicate-free levels, one indicator column per level
             ("vf.contracts.variable_c", ["formulae.terms.variable.Variable.eval_categoric", "formulae.terms.call.Call.eval_categoric"])]
 
